@@ -238,7 +238,18 @@ def verus_phase(pid, P, tier, seed, t0):
     slow = sorted(crate_fns, key=lambda f: -f['time'])[:5]
     verified_fns = [f for f in em.functions if f['verified']]
     stub_fns = [f for f in em.functions if not f['verified']]
+    seeds_ok = None
+    if tier == 'thorough' and not failures:
+        # re-verification under two more solver seeds: a seed-only failure is instability (reported), not a violation
+        seeds_ok = []
+        for sd in (11, 29):
+            r3 = run_verus(path, seed=sd, rlimit=P.get('rlimit', 60))
+            ok3 = bool(r3['json'] and r3['json']['verification-results'].get('success'))
+            seeds_ok.append(dict(seed=sd, success=ok3, wall_s=round(r3['wall'], 1)))
+            if not ok3:
+                machinery.append('unstable: fails under smt.random_seed=%d although it verifies under the default seed' % sd)
     frag = dict(
+        solver_seeds_thorough=seeds_ok,
         obligations=vr['verified'] + vr['errors'],
         discharged=vr['verified'] + (vr['errors'] if (unstable and not failures) else 0),
         unstable_obligations=unstable,
@@ -260,6 +271,32 @@ def verus_phase(pid, P, tier, seed, t0):
         machinery_notes=machinery,
     )
     return failures, frag, (text, line_map, em)
+
+
+def vacuity_phase(pid, P):
+    """thorough tier: every verified exec function gets `proof { assert(false); }` as its first statement; each of these
+    MUST fail.  One that verifies means a contradictory precondition / assumption (the normal run would be vacuous)."""
+    units = props.closure(P['units'])
+    text, line_map, em, entries = tool.generate(set(units), vacuity=True)
+    path = os.path.join(BUILD, '%s_vacuity.rs' % pid)
+    open(path, 'w').write(text)
+    r = run_verus(path, rlimit=20)
+    if r['json'] is None or not (r['json']['verification-results'].get('verified') or r['json']['verification-results'].get('errors')):
+        raise Undecided('vacuity variant did not run: ' + r['raw_err'][-1500:])
+    src = text.split('\n')
+    probe_lines = set(i + 1 for i, l in enumerate(src) if 'proof { assert(false); } ' in l)
+    failed = set()
+    for d in r['diags']:
+        if d.get('level') == 'error' and 'assertion failed' in d.get('message', ''):
+            for sp in d.get('spans', []):
+                if sp['line_start'] in probe_lines:
+                    failed.add(sp['line_start'])
+    vacuous = sorted(probe_lines - failed)
+    names = []
+    for ln in vacuous:
+        m = locate(line_map, ln)
+        names.append(m['key'] if m else 'line %d' % ln)
+    return dict(vacuity_probes=len(probe_lines), vacuity_probes_failed_as_required=len(failed), vacuous_functions=names)
 
 
 def main(argv):
@@ -291,6 +328,11 @@ def main(argv):
         if P.get('units'):
             failures, frag, ctx = verus_phase(pid, P, tier, seed, t0)
         ev['coverage'].update(frag)
+        if tier == 'thorough' and P.get('units'):
+            vac = vacuity_phase(pid, P)
+            ev['coverage'].update(vac)
+            if vac['vacuous_functions']:
+                raise Undecided('vacuity guard: these functions verify `assert(false)` (contradictory precondition or assumption): %s' % vac['vacuous_functions'][:10])
         extra_fail = []
         for hook in P.get('hooks', []):
             # additional deciders (Kani harness groups, replay of known findings, thorough extras)
